@@ -501,6 +501,13 @@ class World:
                 data = f.read()
             verdict = data == self.expected_bytes(key)
         self.validator_calls.append((self.director.op, key, verdict))
+        # validators written by users return whatever their expression yields: bool, int, numpy.bool_
+        style = self.knobs.get("val_style", "bool")
+        if style == "int":
+            return 1 if verdict else 0
+        if style == "numpy":
+            import numpy
+            return numpy.bool_(verdict)
         return verdict
 
     # --------------------------------------------------------------- helpers
